@@ -373,3 +373,26 @@ func (e *Exec) tryClause(en *evalEnv, text string, x Expr) (t *Term, ok bool) {
 	}()
 	return e.evalClause(en, &Clause{Text: text, Expr: x}), true
 }
+
+// EvaluatesForms: does fn contain a static call of slip.EvalArg or (*Scope).Eval (an evaluation event)?
+func EvaluatesForms(fn *ssa.Function) bool {
+	for _, b := range fn.Blocks {
+		for _, in := range b.Instrs {
+			c, ok := in.(*ssa.Call)
+			if !ok {
+				continue
+			}
+			callee := c.Call.StaticCallee()
+			if callee == nil || callee.Pkg == nil || callee.Pkg.Pkg.Path() != ModPath {
+				continue
+			}
+			if callee.Name() == "EvalArg" {
+				return true
+			}
+			if callee.Name() == "Eval" && callee.Signature.Recv() != nil && isScopePtr(callee.Signature.Recv().Type()) {
+				return true
+			}
+		}
+	}
+	return false
+}
